@@ -1,6 +1,6 @@
 (** C13 — Values are bound by name, never by position or spelling. *)
 From Coq Require Import String List Bool Arith QArith Permutation.
-From FV Require Import Base.Names Base.Expr Base.ListMat Model.Named Model.Rename Model.Layout Model.CppGen.
+From FV Require Import Base.Names Base.Expr Base.ListMat Model.Named Model.Rename Model.Layout Model.CppGen gen.NamedAccept Proofs.NamedAccept.
 Import ListNotations.
 
 Theorem C13_named_vector_get : forall arglist kw v a,
@@ -38,6 +38,22 @@ Theorem C13_cpp_slot_consistency : forall (V : Type) (names : list name) (opt : 
   exists i, lookup x (accessor_table names) = Some i /\ nth_error (construct V (ctor_args names) opt) i = Some (opt x).
 Proof. exact slot_consistency. Qed.
 
+(** the acceptance test regenerated from common.py's __subclasshook__ (the operations' isinstance guards consult it):
+    a value is accepted only if it carries exactly the names of the expected class, so that reading it by name under
+    the expected class gives what it holds under its own - nothing is ever bound by position *)
+Theorem C13_accepted_values_carry_the_expected_names : forall n1 a1 n2 a2,
+  vector_accepts n1 a1 n2 a2 = true \/ covariance_accepts n1 a1 n2 a2 = true -> a1 = a2.
+Proof. intros n1 a1 n2 a2 [H|H]; [exact (vector_accepts_names _ _ _ _ H) | exact (covariance_accepts_names _ _ _ _ H)]. Qed.
+
+Theorem C13_accepted_value_read_by_name : forall n1 a1 n2 a2 v x,
+  vector_accepts n1 a1 n2 a2 = true -> nv_get a1 v x = nv_get a2 v x.
+Proof. exact accepted_vector_read_by_name. Qed.
+
+Theorem C13_own_class_accepted : forall n a, vector_accepts n a n a = true /\ covariance_accepts n a n a = true.
+Proof. intros n a. split; [apply vector_accepts_self | apply covariance_accepts_self]. Qed.
+
 Print Assumptions C13_named_vector_get.
+Print Assumptions C13_accepted_values_carry_the_expected_names.
+Print Assumptions C13_accepted_value_read_by_name.
 Print Assumptions C13_declaration_order_irrelevant.
 Print Assumptions C13_rename_invariant.
